@@ -702,6 +702,57 @@ func (g *gen) runtimeCase(emit func(hxlib.Case)) {
 	emit(hxlib.Case{Lines: lines, NonTrivial: true, Kind: "runtime-registry:" + sh})
 }
 
+// parkCase: a running query against concurrent re-flagging. A privileged interface stores n records below `q/`
+// (some already secret / crown jewel), a non-privileged interface starts a query over them and does not read; once the
+// executor has filled the result buffer and is parked in its hand-over, the privileged interface marks a subset of
+// the records secret / crown jewel / both and returns; then the consumer reads to the end (op `pq`, see dbx).
+// Implementation only: which records are in flight is up to the scheduler.
+func (g *gen) parkCase(emit func(hxlib.Case), backend string) {
+	rng := g.r.Rng
+	sh := g.pick([]string{"0", "1"})
+	lines := []string{"cfg " + backend + " " + sh, "if P 1 1 n 0 0 0 0"}
+	for _, a := range actors {
+		lines = append(lines, fmt.Sprintf("if %s %s %s n 0 0 0 0", a.id, a.l, a.i))
+	}
+	n := []int{4, 12, 13, 25, 30, 40, 60}[rng.Intn(7)]
+	var keys []string
+	form := g.pick([]string{"T", "J", "mixed"})
+	for k := 0; k < n; k++ {
+		key := fmt.Sprintf("q/k%02d", k)
+		keys = append(keys, key)
+		g.marker++
+		fl := "0,0"
+		if rng.Intn(8) == 0 {
+			fl = g.pick([]string{"1,0", "0,1", "1,1"})
+		}
+		f := form
+		if f == "mixed" {
+			f = g.pick([]string{"T", "J"})
+		}
+		lines = append(lines, fmt.Sprintf("put P %s %s 0,0,0,0,%s %s", key, f, fl, dbx.GenFields(rng, f, fmt.Sprintf("m%d", g.marker))))
+	}
+	g.marker++
+	lines = append(lines, fmt.Sprintf("put P other/x J 0,0,0,0,0,0 S=s:m%d", g.marker))
+	for round := 0; round < 1+rng.Intn(2); round++ {
+		var sel []string
+		all := rng.Intn(2) == 0
+		for _, k := range keys {
+			if all || rng.Intn(3) != 0 {
+				sel = append(sel, k)
+			}
+		}
+		if len(sel) == 0 {
+			sel = keys[:1]
+		}
+		a := actors[rng.Intn(3)].id
+		op := g.pick([]string{"mksecret", "mkcrown", "mkboth"})
+		lines = append(lines, fmt.Sprintf("pq %s %s P %s %s", a, g.pick([]string{"q/", "q/", "q/k", "-", "q/k1"}), op, strings.Join(sel, ",")))
+		g.r.Count("op:query-vs-reflag:" + op + ":" + backend)
+	}
+	lines = append(lines, "query P - -", "query A - -", "query B - -", "query C - -")
+	emit(hxlib.Case{Lines: lines, NonTrivial: true, Kind: "query-vs-reflag:" + backend, NoModel: true})
+}
+
 func generate(r *hxlib.Run, emit0 func(hxlib.Case)) {
 	emit := func(c hxlib.Case) {
 		if !dbx.Hung() {
@@ -727,6 +778,9 @@ func generate(r *hxlib.Run, emit0 func(hxlib.Case)) {
 	for i := 0; i < n; i++ {
 		for _, backend := range []string{"h", "b", "f", "g"} {
 			g.history(emit, backend, r.Rng.Intn(2) == 0)
+			if i%10 == 0 {
+				g.parkCase(emit, backend)
+			}
 		}
 		if i%4 == 0 {
 			g.runtimeCase(emit)
@@ -831,6 +885,52 @@ func monitor(c hxlib.Case, outs []string) (vs []hxlib.Violation) {
 			p, check, actor = subPriv[f[1]], true, "feed"
 		case "api":
 			p, check, actor = priv{false, false}, true, "api"
+		case "pq":
+			// "never … listed for … an interface that is not internal / not local … queries on every backend", with the
+			// query still running while the records are re-flagged: a record whose hand-over check comes after the
+			// re-flag has returned must not be handed over. Observable: the executor can have checked at most
+			// cap (in the buffer) + 1 (blocked in the send) records before the re-flag began, and everything it checks
+			// later it checks against the new flags; so from the (cap+2)-th arrival on no record may itself carry a
+			// flag the querying interface is not permitted to see. (A storage that answers from a snapshot hands out
+			// the unflagged versions of the snapshot: those are not records marked secret.)
+			if pp, ok := privs[f[1]]; ok && len(f) == 6 {
+				pq, ok := dbx.ParsePQ(out)
+				if !ok {
+					if out != "badquery" {
+						add(i, "C03:malformed-output:pq", out)
+					}
+					break
+				}
+				capN, nrec := pq.Cap, len(pq.Arrived)
+				outcomeLock.Lock()
+				outcomes[fmt.Sprintf("pq:parked=%v:%s", pq.Parked, backend)]++
+				if nrec > capN+1 {
+					outcomes["pq:arrivals-after-the-window:"+backend] += nrec - capN - 1
+				}
+				outcomeLock.Unlock()
+				if pq.Reflag != "ok" {
+					add(i, "C03:privileged-reflag-failed:"+backend, out)
+				}
+				late := 0
+				for k, t := range pq.Arrived {
+					pt := strings.SplitN(t, "~", 3)
+					m := []string{}
+					if len(pt) == 3 {
+						m = strings.Split(pt[1], ",")
+					}
+					if len(m) != 6 {
+						add(i, "C03:malformed-output:pq", t)
+						break
+					}
+					if k >= capN+1 && ((m[4] == "1" && !pp.i) || (m[5] == "1" && !pp.l)) {
+						late++
+						if late == 1 {
+							add(i, "C03:listed-after-reflag:"+backend, fmt.Sprintf("arrival %d of %d (buffer capacity %d) of a query by an interface with local=%v internal=%v, read after the privileged re-flag had returned, is record %s carrying secret=%s crownjewel=%s: its hand-over check cannot have preceded the re-flag",
+								k+1, nrec, capN, pp.l, pp.i, pt[0], m[4], m[5]))
+						}
+					}
+				}
+			}
 		case "rtput":
 			learn("", f, f[1], f[2], f[3], f[4])
 			if out == "ok" {
@@ -908,6 +1008,23 @@ func monitor(c hxlib.Case, outs []string) (vs []hxlib.Violation) {
 			if out == "ok" {
 				learn(f[1], f, f[2], f[3], f[4], f[5])
 			}
+		case "pq":
+			if len(f) == 6 && strings.Contains(out, " reflag=ok ") {
+				for _, k := range strings.Split(f[5], ",") {
+					if f[4] != "mkcrown" {
+						if holder[k] != "" {
+							flags[holder[k]].secret = true
+						}
+						o.Step(i, "mksecret "+f[3]+" "+k, "ok")
+					}
+					if f[4] != "mksecret" {
+						if holder[k] != "" {
+							flags[holder[k]].crown = true
+						}
+						o.Step(i, "mkcrown "+f[3]+" "+k, "ok")
+					}
+				}
+			}
 		case "mksecret":
 			if out == "ok" && holder[f[2]] != "" {
 				flags[holder[f[2]]].secret = true
@@ -958,7 +1075,7 @@ func monitor(c hxlib.Case, outs []string) (vs []hxlib.Violation) {
 			case "insert":
 				o.Step(i, "insert @api "+f[2]+" "+f[3]+" "+f[4], out)
 			}
-		case "rtput", "rtinit":
+		case "rtput", "rtinit", "pq":
 		default:
 			o.Step(i, l, out)
 		}
@@ -978,7 +1095,7 @@ func main() {
 	defer dbx.Cleanup()
 	hxlib.Main(&hxlib.Harness{
 		Prop:     "C03",
-		Rule: "a case is one history on one backend (hashmap/bbolt/fstree/badger x shadow-delete) or on an injected runtime database (runtime.Registry whose value provider keeps and logs every record its Set receives, starts with records of all four flag combinations and also changes and pushes values on its own; all actors read and write there: put, put-new, delete, expiry and flag setters, attribute insert, get-and-put-back, batch, purge, API create/update/insert/delete; the Set log and the feeds are drained after every step and the monitor checks that no Set reaches the provider for a key whose current record is visible and not permitted for the actor of that step): a privileged interface (sometimes with AlwaysMakeSecret / AlwaysMakeCrownjewel) writes records with all four flag combinations, each carrying a unique marker string; interfaces with Local/Internal = 00, 01, 10 (one of them possibly with a read cache, then used exclusively) and the database API (NewInterface(nil)) get, test existence, query, put, put-new, delete, set expiry, re-flag, insert attributes, batch-write, purge and subscribe; feeds are drained after every step. Outputs are compared with the compiled Lean model line by line; the monitor checks that no output of a non-privileged actor contains the marker of a record version that actor may not see, and replays the case on a reference map with the permission rules (denied / exists-only / no write-through). Regression cases walk every path once per backend. Distinct by the hash of the lines.",
+		Rule: "a case is one history on one backend (hashmap/bbolt/fstree/badger x shadow-delete) or on an injected runtime database (runtime.Registry whose value provider keeps and logs every record its Set receives, starts with records of all four flag combinations and also changes and pushes values on its own; all actors read and write there: put, put-new, delete, expiry and flag setters, attribute insert, get-and-put-back, batch, purge, API create/update/insert/delete; the Set log and the feeds are drained after every step and the monitor checks that no Set reaches the provider for a key whose current record is visible and not permitted for the actor of that step): a privileged interface (sometimes with AlwaysMakeSecret / AlwaysMakeCrownjewel) writes records with all four flag combinations, each carrying a unique marker string; interfaces with Local/Internal = 00, 01, 10 (one of them possibly with a read cache, then used exclusively) and the database API (NewInterface(nil)) get, test existence, query, put, put-new, delete, set expiry, re-flag, insert attributes, batch-write, purge and subscribe; feeds are drained after every step. Outputs are compared with the compiled Lean model line by line; the monitor checks that no output of a non-privileged actor contains the marker of a record version that actor may not see, and replays the case on a reference map with the permission rules (denied / exists-only / no write-through). Regression cases walk every path once per backend. Parked-query cases (every 10th round, per backend, implementation only): 4-60 records below one prefix, some already protected; a non-privileged query whose consumer does not read until the result buffer is full (or the executor is done), then the privileged interface marks a subset secret / crown jewel / both and returns, then the consumer reads on; records are rendered as they arrive: no marker of a record protected before the query began, and from the (buffer capacity + 2)-th arrival on no record that itself carries a flag the interface may not see. Distinct by the hash of the lines.",
 		Extra: func(*hxlib.Run) map[string]any {
 			return map[string]any{"unprivileged_outcomes": outcomes}
 		},
